@@ -444,6 +444,21 @@ class ExecCtx:
         return self.lookup(e.id)
 
     def ev_Tuple(self, e):
+        m = self.I.models.get('tuple.opaque-star')
+        if m is not None and any(isinstance(x, ast.Starred) for x in e.elts):
+            parts = [('star', self.eval(x.value)) if isinstance(x, ast.Starred) else ('item', self.eval(x)) for x in e.elts]
+            if any(k == 'star' and isinstance(v, Opaque) for k, v in parts):
+                return m(self, parts)
+            out = []
+            for k, v in parts:
+                if k == 'star':
+                    items = self.I.lib.concrete_iter(self, v)
+                    if items is None:
+                        raise OutOfSubset("star-unpacking a symbolic-length value")
+                    out.extend(items)
+                else:
+                    out.append(v)
+            return tuple(out)
         return tuple(self.eval_elts(e.elts))
 
     def ev_List(self, e):
